@@ -44,8 +44,8 @@ claimed = {
    note="The lifting from 'every function is deterministic and order-independent' to 'equal logs give equal outputs' is a stated meta-argument, not machine-checked. Assumes dependencies outside the nondeterminism list are deterministic, the command table is identical on all nodes, keyed inserts use an injective key function on the keys present. Decided by a structural (dataflow) check on the SSA plus one SMT lemma; no solver is involved in the effect/order classification.",
    design="§5 C01"),
  "C15": dict(
-   text="Injection gates of the HTTP API: at the point where handlePostMessage and handleDeleteSession hand a client-supplied string to raft (assertions anchored at the applyMessageWait calls), the string is proved to contain no LF, CR or NUL for every request body (contract of strings.IndexAny: the prefix before the first hit contains none of the characters); every message a command handler appends to a reply is proved to be at most 510 bytes (invariant replyOK over the assumed contract of irc.Message.Bytes) and to be produced by Message.Bytes from a structured message (contract of send).",
-   note="Not proved: that no handler copies a control character from one parameter into a line through a path other than the two gates (irc.ParseMessage strips CR/LF at the ends only; interior CR/NUL are stopped at the gates), that every emitted line has a non-empty prefix and command. Assumes the contracts of strings.IndexAny/IndexByte and irc.Message.Bytes (vendored sorcix/irc truncates at 510).",
+   text="Injection gates of the HTTP API: at the point where handlePostMessage and handleDeleteSession hand a client-supplied string to raft (assertions anchored at the applyMessageWait calls), the string is proved to contain no LF, CR or NUL for every request body (contract of strings.IndexAny). Every line a command handler hands to a send helper is proved to have a non-empty command and, when it carries a prefix, a prefix with a non-empty name (precondition lineOK of the six send helpers, discharged at all call sites in all registered handlers; needs the invariant that a relaying session has a nickname: registered clients by the dispatch gate, pseudo-clients and services links by invariant wfPrefix); every message appended to a reply is at most 510 bytes and produced by Message.Bytes from a structured message (invariant replyOK, contract of send).",
+   note="Not proved: that no handler copies a control character from a parameter into a line through a path other than the two gates (irc.ParseMessage strips CR/LF at the ends only; interior CR/NUL are stopped at the gates). A line without prefix counts as well-formed (closing ERROR, lines to services). Assumes the contracts of strings.IndexAny/IndexByte/ToUpper, irc.ParseMessage (non-empty command) and irc.Message.Bytes (vendored sorcix/irc truncates at 510), non-empty -network_name (enforced in main), the conforming* clauses for services input (non-empty prefix name and server name).",
    design="§5 C15"),
 }
 na = {
